@@ -64,6 +64,8 @@ class Recorder:
         self.other = Counter()  # violations of other properties seen by shared monitors (diagnostic)
         self.notes = {}
         self.truncated = False
+        self.accept = None  # kinds of non-trivial cases that count for this property (first tuple element)
+        self.alias = set()  # properties whose violations count for this check (keys get a "Cxx:" prefix)
         self._srng = random.Random(12345)
 
     # -- observation counting
@@ -77,6 +79,8 @@ class Recorder:
         self.inconclusive[reason] += n
 
     def nontrivial(self, obj):
+        if self.accept is not None and not (isinstance(obj, tuple) and obj and obj[0] in self.accept):
+            return
         self.distinct.add(h64(obj))
 
     def sample(self, obj, always=False):
@@ -91,8 +95,11 @@ class Recorder:
         """A monitor decided `violated`.  Only violations of the property under check
         count; the shared monitors' other findings are kept as diagnostics."""
         if prop != self.prop:
-            self.other[f"{prop}:{key}"] += 1
-            return
+            if prop in self.alias:
+                key = f"{prop}:{key}"
+            else:
+                self.other[f"{prop}:{key}"] += 1
+                return
         v = self.violations.setdefault(key, {"count": 0, "what": what, "witnesses": []})
         v["count"] += 1
         if len(v["witnesses"]) < self.MAX_WITNESS_PER_KEY:
